@@ -262,6 +262,15 @@ func runCheck(prop, tier string, o opts) int {
 		ev.RegexNotes = append(ev.RegexNotes, fmt.Sprintf("ParseFloat syntax model agrees with strconv.ParseFloat on %d strings", n))
 	}
 
+	if n, bad := dualSelfTest(4); bad != "" {
+		return inconclusive("regex translation self-test failed: " + bad)
+	} else {
+		ev.RegexNotes = append(ev.RegexNotes, fmt.Sprintf("Go-regexp to SMT-regex translation agrees with the regexp package on %d strings", n))
+	}
+	if bad := pf32SelfTest(); bad != "" {
+		return inconclusive("ParseFloat(32) model disagrees with strconv: " + bad)
+	}
+
 	// native replay binaries are built while the exploration runs
 	pkgSet := map[string]bool{}
 	for _, e := range entries {
